@@ -22,7 +22,7 @@ var x03Defs = map[string]string{
 	"utm":  "+proj=utm +zone=32 +datum=WGS84",
 	"lcc":  "+proj=lcc +lat_1=43 +lat_2=49 +lat_0=40 +lon_0=5 +x_0=0 +y_0=0 +datum=WGS84",
 }
-var x03AxisSign = map[string][2]float64{"enu": {1, 1}, "wnu": {-1, 1}, "esu": {1, -1}, "wsu": {-1, -1}, "neu": {1, 1}, "swu": {-1, -1}, "nwu": {1, -1}}
+var x03AxisSign = map[string][2]float64{"enu": {1, 1}, "wnu": {-1, 1}, "esu": {1, -1}, "wsu": {-1, -1}, "neu": {1, 1}, "swu": {-1, -1}, "nwu": {1, -1}, "une": {1, 1}, "wdn": {-1, 1}, "dse": {1, -1}}
 
 func x03Ref(kind, axis string, exp int) (*proj.SR, error) {
 	s := x03Defs[kind]
